@@ -49,17 +49,28 @@ pub fn sequence(input: Input<'_>) -> ParserResult<'_, ASN1Type> {
         preceded(
             skip_ws_and_comments(tag(SEQUENCE)),
             pair(
-                in_braces((
-                    many0(terminated(
+                in_braces(|input| {
+                    let (input, root) = many0(terminated(
                         skip_ws_and_comments(sequence_component),
                         optional_comma,
-                    )),
-                    opt(terminated(extension_marker, opt(char(COMMA)))),
-                    opt(many0(terminated(
-                        skip_ws_and_comments(alt((extension_group, sequence_component))),
-                        optional_comma,
-                    ))),
-                )),
+                    ))
+                    .parse(input)?;
+                    let (input, marker) =
+                        opt(terminated(extension_marker, opt(char(COMMA)))).parse(input)?;
+                    // Extension additions follow an extension marker only. Without a marker the
+                    // root list has just stopped at this very position: trying the same
+                    // component again doubles the work at every nesting level of a malformed type.
+                    let (input, additions) = if marker.is_some() {
+                        many0(terminated(
+                            skip_ws_and_comments(alt((extension_group, sequence_component))),
+                            optional_comma,
+                        ))
+                        .parse(input)?
+                    } else {
+                        (input, vec![])
+                    };
+                    Ok((input, (root, marker, Some(additions))))
+                }),
                 opt(constraints),
             ),
         ),
